@@ -15,7 +15,7 @@ from hypothesis import strategies as st
 from vf import gen, prog, sem
 
 PROP = "C16"
-CASES = {"quick": 2400, "thorough": 30000}
+CASES = {"quick": 2400, "thorough": 150000}
 RULE = ("generated method-like models (vf/gen.py) + object zoo {leaf/derived point, inner product, expression with "
         "constant, leaf expression, constraint of each sense, LMI} x {eval, eval_dual} in phases {never solved, "
         "solve returned None, created after a solve}; witnessed unbounded / infeasible models under CLARABEL and "
